@@ -368,7 +368,7 @@ class Runner:
                     # after having been invoked
                     def callback(*args, _tok=token):
                         self.events.append(('callback', _tok, list(args)))
-                        if cb.startswith('raise'):
+                        if str(cb).startswith('raise'):
                             raise Injected('injected fault in callback')
                     if d.is_async and cb in ('co', 'raise_co'):
                         async def acallback(*args, _tok=token):
